@@ -56,6 +56,8 @@ pub struct Site {
     pub deleted_since_start: bool,
     /// rows that were overwritten by an ingested version at some point
     pub had_ingested_update: BTreeSet<u64>,
+    /// rows inserted (locally or by ingestion) after some row of the site had been deleted: their slot may be a reused one
+    pub inserted_after_deletion: BTreeSet<u64>,
 }
 
 #[allow(dead_code)]
@@ -106,6 +108,7 @@ impl World {
                 version: 0,
                 deleted_since_start: false,
                 had_ingested_update: BTreeSet::new(),
+                inserted_after_deletion: BTreeSet::new(),
             });
         }
         // one room, every site key admin and member with all rights; imported by the other site
@@ -207,12 +210,10 @@ impl World {
         for n in hits.iter().filter(|n| !expect.contains(n)) {
             let sig = if site.had_ingested_update.contains(n) {
                 "stale-hit-after-synchronised-update"
+            } else if site.inserted_after_deletion.contains(n) {
+                "stale-hit-through-reused-slot"
             } else {
-                match site.origin.get(n) {
-                    Some(Origin::LocalAfterDeletion) => "stale-hit-through-reused-slot",
-                    Some(Origin::IngestedInsert) => "stale-hit-through-reused-slot",
-                    _ => "stale-hit",
-                }
+                "stale-hit"
             };
             res.push((sig.to_string(), format!("site {} entity {} search '{}' returned row {} whose current text does not contain it", s, e, t, n)));
         }
@@ -281,6 +282,9 @@ impl World {
                         self.sites[s].rows.insert(n, (id, e));
                         let o = if self.sites[s].deleted_since_start { Origin::LocalAfterDeletion } else { Origin::Local };
                         self.sites[s].origin.insert(n, o);
+                        if self.sites[s].deleted_since_start {
+                            self.sites[s].inserted_after_deletion.insert(n);
+                        }
                         "ok".to_string()
                     }
                     Err(e) => format!("err:{}", class(&e)),
@@ -344,6 +348,7 @@ impl World {
                         self.sites[s].rows.remove(&n);
                         self.sites[s].origin.remove(&n);
                         self.sites[s].had_ingested_update.remove(&n);
+                        self.sites[s].inserted_after_deletion.remove(&n);
                         self.sites[s].deleted_since_start = true;
                         "ok".to_string()
                     }
@@ -368,12 +373,19 @@ impl World {
                 let after = self.versions(s).await;
                 let known: Vec<(u64, (Uid, u64))> = self.row_uid.iter().map(|(n, v)| (*n, *v)).collect();
                 let mut rows = BTreeMap::new();
+                if known.iter().any(|(_, (id, _))| before.contains_key(&b64(id)) && !after.contains_key(&b64(id))) {
+                    // tombstones are applied before the rows of the same ingestion are written
+                    self.sites[s].deleted_since_start = true;
+                }
                 for (n, (id, e)) in known {
                     if let Some(m) = after.get(&b64(&id)) {
                         rows.insert(n, (id, e));
                         match before.get(&b64(&id)) {
                             None => {
                                 self.sites[s].origin.insert(n, Origin::IngestedInsert);
+                                if self.sites[s].deleted_since_start {
+                                    self.sites[s].inserted_after_deletion.insert(n);
+                                }
                             }
                             Some(m0) if m0 != m => {
                                 self.sites[s].origin.insert(n, Origin::IngestedUpdate);
@@ -387,6 +399,7 @@ impl World {
                         }
                         self.sites[s].origin.remove(&n);
                         self.sites[s].had_ingested_update.remove(&n);
+                        self.sites[s].inserted_after_deletion.remove(&n);
                     }
                 }
                 self.sites[s].rows = rows;
